@@ -34,8 +34,9 @@ class DeliveryModel(Monitor):
 
     name = "delivery"
 
-    def __init__(self, forbid_termination=True):
+    def __init__(self, forbid_termination=True, completion=True):
         super().__init__()
+        self.completion = completion  # False: run to the horizon, do not demand delivery of everything
         self.delivered = {}  # (receiver side, sid) -> count
         self.ended = set()
         self.reset_seen = set()
@@ -121,6 +122,8 @@ class DeliveryModel(Monitor):
 
     def complete(self):
         sim = self.sim
+        if not self.completion:
+            return False
         for side, sid, recv, w in self._obligations():
             if self.delivered.get((recv, sid), 0) != w:
                 return False
@@ -133,7 +136,7 @@ class DeliveryModel(Monitor):
 
     def at_end(self, sim):
         # bounded completion is only demanded when the run ended in the fair phase
-        if sim.stopped_reason == "step-cap":
+        if sim.stopped_reason == "step-cap" or not self.completion:
             return
         for side, sid, recv, w in self._obligations():
             self.evaluations += 1
@@ -287,3 +290,450 @@ def diagnose_stall(sim):
         except Exception:
             pass
     return None
+
+
+# ------------------------------------------------------------------ C06
+
+
+class CreditLedger(Monitor):
+    """Conservation ledger kept outside the sender, from the wire only.
+
+    limits in force for sender S = its peer's transport parameters (the peer's configured values)
+    plus every MAX_DATA / MAX_STREAM_DATA / MAX_STREAMS frame in a packet *delivered to S*
+    (maximum seen; lost updates never count). Checked at every packet S emits."""
+
+    name = "credit"
+
+    def __init__(self):
+        super().__init__()
+        self.lim = {}
+        self.highest = {"client": {}, "server": {}}
+        self.stream_frames = 0
+        self.blocked_seen = set()  # (sender, kind) limits found exactly exhausted at some point
+        self.progress_after_block = set()
+        self.updates_delivered = 0
+        self.retransmitted_bytes = 0
+
+    def attach(self, sim):
+        super().attach(sim)
+        o = sim.opts
+        for s, peer in (("client", "server"), ("server", "client")):
+            self.lim[s] = {
+                "max_data": o.get("max_data_" + peer, 1048576),
+                "stream_default": o.get("max_stream_data_" + peer, 1048576),
+                "stream": {},
+                "bidi": o.get("max_streams_bidi_" + peer, 128),
+                "uni": o.get("max_streams_uni_" + peer, 128),
+            }
+
+    def stream_limit(self, s, sid):
+        L = self.lim[s]
+        return max(L["stream"].get(sid, 0), L["stream_default"]) if sid not in L["stream"] else max(L["stream"][sid], L["stream_default"])
+
+    def on_deliver(self, ep, rec, from_addr, t, altered=False):
+        L = self.lim[ep.name]
+        for v in self.sim.views_possibly_intact(rec, altered):
+            if v.error:
+                continue
+            for f in v.frames:
+                n = f["name"]
+                if n == "MAX_DATA":
+                    L["max_data"] = max(L["max_data"], f["maximum"])
+                    self.updates_delivered += 1
+                elif n == "MAX_STREAM_DATA":
+                    L["stream"][f["stream_id"]] = max(L["stream"].get(f["stream_id"], 0), f["maximum"])
+                    self.updates_delivered += 1
+                elif n == "MAX_STREAMS_BIDI":
+                    L["bidi"] = max(L["bidi"], f["maximum"])
+                    self.updates_delivered += 1
+                elif n == "MAX_STREAMS_UNI":
+                    L["uni"] = max(L["uni"], f["maximum"])
+                    self.updates_delivered += 1
+
+    def on_datagram_out(self, ep, rec, t):
+        s = ep.name
+        L = self.lim[s]
+        hi = self.highest[s]
+        for v in rec.views or []:
+            if v.error:
+                continue
+            for f in v.frames:
+                n = f["name"]
+                if n not in ("STREAM", "RESET_STREAM"):
+                    continue
+                self.evaluations += 1
+                sid = f["stream_id"]
+                end = f["offset"] + f["length"] if n == "STREAM" else f["final_size"]
+                if n == "STREAM":
+                    self.stream_frames += 1
+                    if end <= hi.get(sid, 0) and f["length"]:
+                        self.retransmitted_bytes += f["length"]
+                limit = self.stream_limit(s, sid)
+                if end > limit:
+                    raise Violation("credit:stream-limit-exceeded:%s" % n, "%s sent %s on stream %d up to offset %d, per-stream limit in force %d" % (s, n, sid, end, limit), {"t": t, "pn": v.pn})
+                # stream-count limit for streams S itself initiates
+                s_initiated = (sid % 2 == 0) == (s == "client")
+                if s_initiated:
+                    kind = "uni" if sid & 2 else "bidi"
+                    if sid // 4 >= L[kind]:
+                        raise Violation("credit:stream-count-exceeded:%s" % kind, "%s opened stream %d (#%d) with max_streams_%s=%d in force" % (s, sid, sid // 4 + 1, kind, L[kind]), {"t": t})
+                if end > hi.get(sid, 0):
+                    if (s, "any") in self.blocked_seen:
+                        self.progress_after_block.add(s)
+                    hi[sid] = end
+                total = sum(hi.values())
+                if total > L["max_data"]:
+                    raise Violation("credit:connection-limit-exceeded", "%s: sum of highest offsets %d > max_data in force %d (after %s on stream %d)" % (s, total, L["max_data"], n, sid), {"t": t, "highest": dict(hi)})
+                if total == L["max_data"] or hi.get(sid, 0) == limit:
+                    self.blocked_seen.add((s, "any"))
+
+    def at_end(self, sim):
+        """Blocked data must have a reason in the ledger (bounded progress)."""
+        if sim.stopped_reason == "step-cap":
+            return
+        for (side, sid), w in sim.written.items():
+            recv = "server" if side == "client" else "client"
+            if (side, sid) in sim.reset_by_sender or (recv, sid) in sim.stop_requested:
+                continue
+            L = self.lim[side]
+            hi = self.highest[side]
+            sent = hi.get(sid, 0)
+            if sent >= w:
+                continue
+            self.evaluations += 1
+            reasons = []
+            if sent == self.stream_limit(side, sid):
+                reasons.append("stream-limit")
+            if sum(hi.values()) == L["max_data"]:
+                reasons.append("connection-limit")
+            s_initiated = (sid % 2 == 0) == (side == "client")
+            if s_initiated and sid // 4 >= L["uni" if sid & 2 else "bidi"]:
+                reasons.append("stream-count")
+            if not reasons:
+                mech = diagnose_stall(sim)
+                if mech:
+                    raise Violation("stall:" + mech, "%s stream %d: %d of %d bytes sent, no limit exhausted [diagnosis: %s]" % (side, sid, sent, w, mech), None)
+                raise Violation("credit:blocked-with-credit-available", "%s stream %d: only %d of %d written bytes ever sent by the end of the fair phase although stream limit %d, max_data %d (used %d) and stream count allow more" % (side, sid, sent, w, self.stream_limit(side, sid), L["max_data"], sum(hi.values())), {"limits": {k: v for k, v in L.items() if k != "stream"}, "stream_limits": L["stream"], "highest": dict(hi)})
+
+
+# ------------------------------------------------------------------ C12
+
+
+class AckMonitor(Monitor):
+    """ACK soundness (every acknowledged number was delivered authentic in that space) and timeliness."""
+
+    name = "ack"
+
+    def __init__(self, check_timeliness=True, slack=1e-6):
+        super().__init__()
+        self.delivered = {}  # (endpoint, space) -> set of pn
+        self.largest = {}
+        self.obligations = []  # dict(ep, space, pn, t, deadline)
+        self.ack_frames_checked = 0
+        self.acked_numbers_checked = 0
+        self.timeliness_obligations = 0
+        self.timeliness_met = 0
+        self.next_tx_obligations = 0
+        self.exempt = 0
+        self.check_timeliness = check_timeliness
+        self.slack = slack
+        self.pending_next = {}  # (ep, space) -> set(pn) to be covered by next packet in that space
+
+    def on_deliver(self, ep, rec, from_addr, t, altered=False):
+        if altered:
+            # packets of a corrupted copy that do not contain the flipped byte are still authentic
+            for v in self.sim.views_possibly_intact(rec, altered):
+                if v.pn is not None and not v.error:
+                    self.delivered.setdefault((ep.name, v.space), set()).add(v.pn)
+            return
+        for v in rec.views or []:
+            if v.pn is None or v.error:
+                continue
+            sp = v.space
+            key = (ep.name, sp)
+            self.delivered.setdefault(key, set()).add(v.pn)
+            if not v.ack_eliciting or v.pn <= self.largest.get(key, -1):
+                if v.pn > self.largest.get(key, -1):
+                    self.largest[key] = v.pn
+                continue
+            self.largest[key] = v.pn
+            if not self.check_timeliness or ep.terminated:
+                continue
+            if sp == "A":
+                closing = ep.conn._state.name in ("CLOSING", "DRAINING", "TERMINATED") or ep.conn._close_pending
+                path_ok = True
+                try:
+                    path_ok = ep.conn._network_paths[0].is_validated
+                except Exception:
+                    pass
+                if v.ptype != "1rtt" or not ep.handshake_complete or closing or not path_ok or from_addr not in (ep.conn._network_paths[0].addr,):
+                    self.exempt += 1
+                    continue
+                self.obligations.append({"ep": ep.name, "space": sp, "pn": v.pn, "t": t, "deadline": t + 0.025 + self.slack, "met": False})
+                self.timeliness_obligations += 1
+            else:
+                self.pending_next.setdefault(key, set()).add(v.pn)
+                self.next_tx_obligations += 1
+
+    def after_deliver(self, ep, rec, from_addr, t, altered=False):
+        # packets the endpoint legitimately could not process yet (keys not available, space gone) owe nothing
+        from aioquic import tls
+
+        emap = {"I": tls.Epoch.INITIAL, "H": tls.Epoch.HANDSHAKE, "A": tls.Epoch.ONE_RTT}
+        for key in list(self.pending_next):
+            if key[0] != ep.name:
+                continue
+            sp = ep.conn._spaces.get(emap[key[1]]) if hasattr(ep.conn, "_spaces") else None
+            if sp is None or sp.discarded:
+                self.exempt += len(self.pending_next.pop(key))
+                continue
+            # not accepted because the receive keys are not installed yet -> exempt
+            for pn in list(self.pending_next[key]):
+                if pn not in sp.ack_queue:
+                    self.pending_next[key].discard(pn)
+                    self.exempt += 1
+        for ob in self.obligations:
+            if ob["ep"] == ep.name and not ob["met"] and ob["t"] == t:
+                sp = ep.conn._spaces.get(emap["A"])
+                if sp is None or sp.discarded or ob["pn"] not in sp.ack_queue:
+                    # e.g. the packet could not be opened because of a key-phase desync (C01 finding)
+                    ob["met"] = True
+                    self.exempt += 1
+                    self.timeliness_obligations -= 1
+
+    def on_datagram_out(self, ep, rec, t):
+        for v in rec.views or []:
+            if v.error or v.pn is None:
+                continue
+            sp = v.space
+            key = (ep.name, sp)
+            acks = [f for f in v.frames if f["name"] in ("ACK", "ACK_ECN")]
+            covered = set()
+            for f in acks:
+                self.ack_frames_checked += 1
+                self.evaluations += 1
+                dset = self.delivered.get(key, set())
+                for lo, hi in f["ranges"]:
+                    if hi - lo > 200000:
+                        raise Violation("ack:acknowledges-undelivered", "%s ACK range [%d,%d] in space %s is larger than anything delivered" % (ep.name, lo, hi, sp), {"t": t})
+                    for n in range(lo, hi + 1):
+                        self.acked_numbers_checked += 1
+                        if n not in dset:
+                            raise Violation("ack:acknowledges-undelivered", "%s acknowledged packet number %d in space %s, which was never delivered to it as an authentic packet" % (ep.name, n, sp), {"t": t, "ranges": f["ranges"][:6], "delivered_max": max(dset) if dset else None})
+                        covered.add(n)
+            if sp in ("I", "H") and key in self.pending_next:
+                missing = self.pending_next[key] - covered
+                if missing and self.check_timeliness:
+                    raise Violation("ack:next-transmission-lacks-ack:%s" % sp, "%s sent a packet in space %s without acknowledging ack-eliciting packet(s) %s received earlier in that space" % (ep.name, sp, sorted(missing)[:5]), {"t": t, "frames": [f["name"] for f in v.frames]})
+                self.pending_next.pop(key, None)
+            if sp == "A" and covered:
+                for ob in self.obligations:
+                    if not ob["met"] and ob["ep"] == ep.name and ob["pn"] in covered:
+                        ob["met"] = True
+                        if t > ob["deadline"]:
+                            raise Violation("ack:late", "%s acknowledged 1-RTT packet %d after %.1f ms (received t=%.4f, ack sent t=%.4f; advertised max_ack_delay 25 ms, timers fired on time)" % (ep.name, ob["pn"], (t - ob["t"]) * 1000, ob["t"], t), {"t": t})
+                        self.timeliness_met += 1
+
+    def on_step(self, ep, t, cause):
+        if not self.check_timeliness:
+            return
+        for ob in self.obligations:
+            if not ob["met"] and ob["ep"] == ep.name and t > ob["deadline"] + 0.05:
+                if ep.terminated or ep.conn._state.name != "CONNECTED" or ep.conn._close_pending:
+                    ob["met"] = True
+                    self.exempt += 1
+                    continue
+                raise Violation("ack:missing", "%s never acknowledged 1-RTT ack-eliciting packet %d received at t=%.4f (now %.4f)" % (ep.name, ob["pn"], ob["t"], t), {"cause": cause})
+        self.obligations = [ob for ob in self.obligations if not ob["met"]]
+
+
+# ------------------------------------------------------------------ C13
+
+
+class EmissionMonitor(Monitor):
+    """Datagram size, Initial padding and anti-amplification ledger per (endpoint, peer address)."""
+
+    name = "emission"
+
+    def __init__(self):
+        super().__init__()
+        self.sent = {}  # (endpoint, addr) -> bytes
+        self.received = {}
+        self.validated = set()  # (endpoint, addr)
+        self.challenges = {}  # endpoint -> {data: addr}
+        self.datagrams_checked = 0
+        self.initial_datagrams = 0
+        self.amplification_checks = 0
+        self.max_ratio_x100 = 0
+        self.unvalidated_sends = 0
+
+    def on_deliver(self, ep, rec, from_addr, t, altered=False):
+        key = (ep.name, from_addr)
+        self.received[key] = self.received.get(key, 0) + len(rec.data)
+        if altered:
+            return
+        for v in rec.views or []:
+            if v.error or v.pn is None:
+                continue
+            if v.ptype == "handshake":
+                # conservative-late: an authentic Handshake packet from this address was delivered
+                self.validated.add(key)
+            for f in v.frames:
+                if f["name"] == "PATH_RESPONSE":
+                    a = self.challenges.get(ep.name, {}).get(bytes(f["data"]))
+                    if a is not None:
+                        self.validated.add((ep.name, a))
+
+    def on_datagram_out(self, ep, rec, t):
+        self.evaluations += 1
+        self.datagrams_checked += 1
+        n = len(rec.data)
+        mds = self.sim.opts.get("mds_" + ep.name, 1200)
+        if n > mds:
+            raise Violation("emission:datagram-exceeds-max_datagram_size", "%s emitted a %d-byte datagram, max_datagram_size=%d" % (ep.name, n, mds), {"t": t, "views": [v.brief() for v in rec.views or []]})
+        has_initial = any(v.ptype == "initial" for v in rec.views or [])
+        ae_initial = any(v.ptype == "initial" and v.ack_eliciting for v in rec.views or [])
+        if has_initial:
+            self.initial_datagrams += 1
+            if ep.name == "client" and n < 1200:
+                raise Violation("emission:client-initial-datagram-below-1200", "client datagram containing an Initial packet is %d bytes" % n, {"t": t, "views": [v.brief() for v in rec.views or []]})
+            if ep.name == "server" and ae_initial and n < 1200:
+                key = (ep.name, rec.addr)
+                budget = 3 * self.received.get(key, 0) - self.sent.get(key, 0)
+                why = "amplification-budget-below-1200" if (key not in self.validated and budget < 1200) else "budget-sufficient"
+                raise Violation("emission:server-ack-eliciting-initial-datagram-below-1200:" + why,
+                                "server datagram containing an ack-eliciting Initial packet is %d bytes (anti-amplification budget left for that address before sending: %s)" % (n, budget if key not in self.validated else "validated"),
+                                {"t": t, "views": [v.brief() for v in rec.views or []]})
+        for v in rec.views or []:
+            for f in v.frames:
+                if f["name"] == "PATH_CHALLENGE":
+                    self.challenges.setdefault(ep.name, {})[bytes(f["data"])] = rec.addr
+        if ep.name == "server":
+            key = (ep.name, rec.addr)
+            self.sent[key] = self.sent.get(key, 0) + n
+            if key not in self.validated:
+                self.amplification_checks += 1
+                self.unvalidated_sends += 1
+                rx = self.received.get(key, 0)
+                if rx:
+                    self.max_ratio_x100 = max(self.max_ratio_x100, int(100 * self.sent[key] / rx))
+                if self.sent[key] > 3 * rx:
+                    raise Violation("emission:amplification-limit-exceeded", "server sent %d bytes to unvalidated address %r having received %d from it (limit %d)" % (self.sent[key], rec.addr, rx, 3 * rx), {"t": t, "views": [v.brief() for v in rec.views or []]})
+
+
+# ------------------------------------------------------------------ C09
+
+
+class CloseMonitor(Monitor):
+    """Temporal monitor: termination exactly once, closing deadline, closing packets only, silence afterwards."""
+
+    name = "close"
+
+    def __init__(self, on_time=True):
+        super().__init__()
+        self.on_time = on_time
+        self.t0 = {}  # endpoint -> (t0, pto0, kind)
+        self.term = {}  # endpoint -> [times]
+        self.after_term_events = 0
+        self.closing_checks = 0
+        self.deadline_checks = 0
+        self.idle_checks = 0
+        self.last_rx = {}  # endpoint -> (t, pto)
+        self.close_kinds = set()
+        self.close_dgram_step = {}
+
+    def on_deliver(self, ep, rec, from_addr, t, altered=False):
+        pass
+
+    def after_deliver(self, ep, rec, from_addr, t, altered=False):
+        if altered or ep.terminated:
+            return
+        authentic = [v for v in rec.views or [] if v.pn is not None and not v.error]
+        if authentic:
+            try:
+                self.last_rx[ep.name] = (t, ep.conn._loss.get_probe_timeout())
+            except Exception:
+                pass
+        if ep.name not in self.t0 and ep.conn._state.name == "DRAINING":
+            self.t0[ep.name] = (t, ep.conn._loss.get_probe_timeout(), "draining")
+            self.close_kinds.add("peer-close")
+
+    def on_datagram_out(self, ep, rec, t):
+        has_close = any(f["name"].startswith("CONNECTION_CLOSE") for v in rec.views or [] for f in v.frames)
+        st = self.t0.get(ep.name)
+        if st is not None:
+            self.evaluations += 1
+            self.closing_checks += 1
+            t0, pto0, kind = st
+            if kind == "draining":
+                raise Violation("close:draining-endpoint-sends", "%s received a CONNECTION_CLOSE at t=%.4f but still emitted a datagram at t=%.4f: %s" % (ep.name, t0, t, [v.brief() for v in rec.views or []]), None)
+            if t > t0 or self.close_dgram_step.get(ep.name) != self.sim.steps:
+                raise Violation("close:sends-after-closing-packets", "%s began closing at t=%.4f and emitted another datagram at t=%.4f: %s" % (ep.name, t0, t, [v.brief() for v in rec.views or []]), None)
+        if has_close:
+            if st is None:
+                try:
+                    pto0 = ep.conn._loss.get_probe_timeout()
+                except Exception:
+                    pto0 = 1.0
+                self.t0[ep.name] = (t, pto0, "closing")
+                self.close_dgram_step[ep.name] = self.sim.steps
+                self.close_kinds.add("local-close-or-error")
+            self.evaluations += 1
+            self.closing_checks += 1
+            seen_spaces = set()
+            for v in rec.views or []:
+                if v.ptype == "padding":
+                    continue
+                names = {f["name"] for f in v.frames}
+                if not names <= {"CONNECTION_CLOSE", "CONNECTION_CLOSE_APP", "PADDING"}:
+                    raise Violation("close:closing-packet-carries-other-frames", "%s closing packet (%s) carries %s" % (ep.name, v.ptype, sorted(names)), None)
+                if v.ptype in seen_spaces:
+                    raise Violation("close:more-than-one-closing-packet-per-space", "%s emitted two closing packets of type %s" % (ep.name, v.ptype), None)
+                seen_spaces.add(v.ptype)
+
+    def on_event(self, ep, ev, t):
+        name = type(ev).__name__
+        if name == "ConnectionTerminated":
+            self.evaluations += 1
+            self.term.setdefault(ep.name, []).append(t)
+            if len(self.term[ep.name]) > 1:
+                raise Violation("close:terminated-twice", "%s reported ConnectionTerminated twice (t=%s)" % (ep.name, self.term[ep.name]), None)
+            st = self.t0.get(ep.name)
+            if st is not None and self.on_time:
+                t0, pto0, kind = st
+                self.deadline_checks += 1
+                if t > t0 + 3 * pto0 + 1e-6:
+                    raise Violation("close:termination-later-than-3-pto", "%s began %s at t=%.4f with PTO %.4f but reported termination at t=%.4f (> t0+3*PTO=%.4f)" % (ep.name, kind, t0, pto0, t, t0 + 3 * pto0), None)
+            elif st is None and self.on_time:
+                # idle timeout (or version negotiation failure): must not be later than the idle deadline
+                lr = self.last_rx.get(ep.name)
+                if lr is not None and ev.reason_phrase == "Idle timeout":
+                    self.idle_checks += 1
+                    o = self.sim.opts
+                    idle = min(o.get("idle_client", 600.0), o.get("idle_server", 600.0))
+                    deadline = lr[0] + max(idle, 3 * lr[1])
+                    self.close_kinds.add("idle")
+                    if t > deadline + 1e-6:
+                        raise Violation("close:idle-termination-late", "%s: last authentic packet processed at t=%.4f, negotiated idle timeout %.3f (3*PTO=%.3f), terminated at t=%.4f" % (ep.name, lr[0], idle, 3 * lr[1], t), None)
+        elif ep.name in self.term:
+            self.after_term_events += 1
+            raise Violation("close:event-after-termination", "%s returned %s after ConnectionTerminated" % (ep.name, name), None)
+
+    def on_step(self, ep, t, cause):
+        if ep.terminated and ep.timer_at is not None:
+            # a terminated connection has nothing to wait for
+            pass
+
+    def at_end(self, sim):
+        # keep poking terminated endpoints: nothing may come out any more
+        for ep in (sim.client, sim.server):
+            if ep is None or not ep.terminated:
+                continue
+            for _ in range(10):
+                self.evaluations += 1
+                if sim.call(ep, "next_event") is not None:
+                    raise Violation("close:event-after-termination", "%s returned an event after ConnectionTerminated (poked at the end)" % ep.name, None)
+                if sim.call(ep, "datagrams_to_send", now=sim.now + 1.0):
+                    raise Violation("close:sends-after-termination", "%s emitted a datagram after ConnectionTerminated" % ep.name, None)
+                if sim.call(ep, "get_timer") is not None:
+                    raise Violation("close:timer-after-termination", "%s still requests a timer after ConnectionTerminated" % ep.name, None)
